@@ -131,6 +131,26 @@ var wildGens = []wildGen{
 type leafCase struct {
 	class string
 	node  *qt.Node
+	df    string // default field the leaf is rendered with ("" = none); bare terms mean df:term
+}
+
+// scopeBare returns the meaning of a tree under a default field: every bare term t is df:t.
+func scopeBare(t *qt.Node, df string) *qt.Node {
+	if df == "" {
+		return t
+	}
+	c := t.Clone()
+	var walk func(n *qt.Node) *qt.Node
+	walk = func(n *qt.Node) *qt.Node {
+		if n.Kind == qt.KTerm {
+			return qt.F(df, n.Val)
+		}
+		for i, k := range n.Kids {
+			n.Kids[i] = walk(k)
+		}
+		return n
+	}
+	return walk(c)
 }
 
 func numField(v qt.Value) string {
@@ -147,7 +167,7 @@ func leafClasses(r *rand.Rand, draws int) []leafCase {
 	for _, g := range eqKinds {
 		for d := 0; d < draws; d++ {
 			v := g.gen(r, d)
-			out = append(out, leafCase{"eq:" + g.name, qt.F(numField(v), v)})
+			out = append(out, leafCase{"eq:" + g.name, qt.F(numField(v), v), ""})
 		}
 	}
 	cmpKinds := []valGen{vgInt, vgNegInt, vgFloat2, vgFloatN, vgFloatBig, vgWord, vgPhrase, vgComma, vgQuote}
@@ -155,7 +175,7 @@ func leafClasses(r *rand.Rand, draws int) []leafCase {
 		for _, g := range cmpKinds {
 			for d := 0; d < draws; d++ {
 				v := g.gen(r, d)
-				out = append(out, leafCase{"cmp" + op + ":" + g.name, qt.Cmp(numField(v), op, v)})
+				out = append(out, leafCase{"cmp" + op + ":" + g.name, qt.Cmp(numField(v), op, v), ""})
 			}
 		}
 	}
@@ -200,12 +220,12 @@ func leafClasses(r *rand.Rand, draws int) []leafCase {
 					} else if open == "right" {
 						kind = p.lo.name
 					}
-					out = append(out, leafCase{"range:" + br + ":" + open + ":" + kind, qt.Range(f, lo, hi, incl)})
+					out = append(out, leafCase{"range:" + br + ":" + open + ":" + kind, qt.Range(f, lo, hi, incl), ""})
 				}
 			}
 		}
-		out = append(out, leafCase{"range:" + br + ":both:num", qt.Range("n", qt.Open(), qt.Open(), incl)})
-		out = append(out, leafCase{"range:" + br + ":both:str", qt.Range("s", qt.Open(), qt.Open(), incl)})
+		out = append(out, leafCase{"range:" + br + ":both:num", qt.Range("n", qt.Open(), qt.Open(), incl), ""})
+		out = append(out, leafCase{"range:" + br + ":both:str", qt.Range("s", qt.Open(), qt.Open(), incl), ""})
 	}
 	listKinds := [][]valGen{{vgInt, vgInt}, {vgInt, vgFloatN, vgNegInt}, {vgFloat2, vgFloatWhole}, {vgWord, vgWord}, {vgPhrase, vgComma, vgQuote}, {vgWord, vgEmpty}, {vgMeta, vgEscaped, vgWord}}
 	for _, lk := range listKinds {
@@ -218,13 +238,25 @@ func leafClasses(r *rand.Rand, draws int) []leafCase {
 			for i, g := range lk {
 				vals = append(vals, g.gen(r, d+i))
 			}
-			out = append(out, leafCase{"list:" + strings.Join(names, ","), qt.List(numField(vals[0]), vals...)})
+			out = append(out, leafCase{"list:" + strings.Join(names, ","), qt.List(numField(vals[0]), vals...), ""})
 		}
 	}
 	for _, wg := range wildGens {
 		for d := 0; d < draws && d < len(wg.pats)*3; d++ {
 			p := wg.pats[d%len(wg.pats)]
-			out = append(out, leafCase{"wild:" + wg.name, qt.F("s", qt.Wild(p))})
+			out = append(out, leafCase{"wild:" + wg.name, qt.F("s", qt.Wild(p)), ""})
+		}
+	}
+	// bare terms under a default field are field-scoped terms too
+	for _, g := range []valGen{vgWord, vgInt, vgNegInt, vgFloat2, vgFloatN, vgPhrase, vgQuote, vgComma, vgMeta, vgEmpty, vgEscaped} {
+		for d := 0; d < draws; d++ {
+			v := g.gen(r, d)
+			out = append(out, leafCase{"bare-default-field:" + g.name, qt.T(v), numField(v)})
+		}
+	}
+	for _, wg := range wildGens {
+		for d := 0; d < draws && d < len(wg.pats); d++ {
+			out = append(out, leafCase{"bare-default-field:wild:" + wg.name, qt.T(qt.Wild(wg.pats[d])), "s"})
 		}
 	}
 	return out
@@ -353,7 +385,7 @@ func (c03) RunBatch(ctx *core.Ctx, batch int) {
 				continue
 			}
 			text := qt.Print(t, qt.Style{})
-			ctx.Case(text, func() { c03Compound(ctx, t, text) })
+			ctx.Case(text, func() { c03Compound(ctx, t, text, "") })
 		}
 	default:
 		r := ctx.Rand("deep")
@@ -373,8 +405,25 @@ func (c03) RunBatch(ctx *core.Ctx, batch int) {
 					}
 				}
 			}
+			df := ""
+			if r.Intn(3) == 0 {
+				// a default field: the equality and pattern leaves on s are written as bare terms
+				df = "s"
+				t = t.Clone()
+				var bare func(n *qt.Node) *qt.Node
+				bare = func(n *qt.Node) *qt.Node {
+					if n.Kind == qt.KField && n.Field.S == "s" && r.Intn(2) == 0 {
+						return qt.T(n.Val)
+					}
+					for i, k := range n.Kids {
+						n.Kids[i] = bare(k)
+					}
+					return n
+				}
+				t = bare(t)
+			}
 			text := qt.Print(t, st)
-			ctx.Case(text, func() { c03Compound(ctx, t, text) })
+			ctx.Case(text, func() { c03Compound(ctx, t, text, df) })
 		}
 	}
 }
@@ -419,9 +468,16 @@ func c03Leaf(ctx *core.Ctx, lc leafCase, text string, report bool) (clean bool, 
 	}
 	var sql string
 	var err error
-	if !ctx.Call("ToPostgres", func() { sql, err = lucene.ToPostgres(text) }) {
+	if !ctx.Call("ToPostgres", func() {
+		if lc.df != "" {
+			sql, err = lucene.ToPostgres(text, lucene.WithDefaultField(lc.df))
+		} else {
+			sql, err = lucene.ToPostgres(text)
+		}
+	}) {
 		return false, nil
 	}
+	meaning := scopeBare(lc.node, lc.df)
 	if report {
 		ctx.Count("leaves", 1)
 		ctx.Distinct("leaf_classes", lc.class)
@@ -438,11 +494,11 @@ func c03Leaf(ctx *core.Ctx, lc leafCase, text string, report bool) (clean bool, 
 		vio("c03:leaf:"+sigClass(lc.class)+":not-sql", "leaf %q renders %q: %s", text, sql, res.Reject)
 		return false, nil
 	}
-	fields := oracle.CollectFields(lc.node)
+	fields := oracle.CollectFields(meaning)
 	rows := oracle.ProbeRows(fields, ctx.Rand("rows"+text), 512)
 	sat, unsat := 0, 0
 	for i, row := range rows {
-		want, lerr := oracle.LucEval(lc.node, row)
+		want, lerr := oracle.LucEval(meaning, row)
 		if lerr != nil {
 			if report {
 				ctx.Count("rows_untyped_skipped", 1)
@@ -485,24 +541,25 @@ type leafInfo struct {
 
 var c03LeafCache = map[string]leafInfo{}
 
-func c03LeafInfo(ctx *core.Ctx, n *qt.Node) leafInfo {
+func c03LeafInfo(ctx *core.Ctx, n *qt.Node, df string) leafInfo {
 	text := qt.Print(n, qt.Style{})
-	if li, ok := c03LeafCache[text]; ok {
+	key := df + "\x00" + text
+	if li, ok := c03LeafCache[key]; ok {
 		return li
 	}
-	clean, ir := c03Leaf(ctx, leafCase{"compound-leaf", n}, text, false)
+	clean, ir := c03Leaf(ctx, leafCase{"compound-leaf", n, df}, text, false)
 	li := leafInfo{clean, ir}
 	if len(c03LeafCache) > 5000 {
 		c03LeafCache = map[string]leafInfo{}
 	}
-	c03LeafCache[text] = li
+	c03LeafCache[key] = li
 	return li
 }
 
 // expectedIR builds the Boolean combination of the leaves' own SQL that the query's structure demands.
-func expectedIR(ctx *core.Ctx, n *qt.Node, allClean *bool) *oracle.IR {
+func expectedIR(ctx *core.Ctx, n *qt.Node, allClean *bool, df string) *oracle.IR {
 	if n.IsLeaf() {
-		li := c03LeafInfo(ctx, n)
+		li := c03LeafInfo(ctx, n, df)
 		if !li.clean {
 			*allClean = false
 		}
@@ -510,7 +567,7 @@ func expectedIR(ctx *core.Ctx, n *qt.Node, allClean *bool) *oracle.IR {
 	}
 	kids := []*oracle.IR{}
 	for _, k := range n.Kids {
-		x := expectedIR(ctx, k, allClean)
+		x := expectedIR(ctx, k, allClean, df)
 		if x == nil {
 			return nil
 		}
@@ -595,16 +652,25 @@ func propEquivalent(a, b *oracle.IR, r *rand.Rand) (bool, uint64, []string) {
 	return true, 0, order
 }
 
-func c03Compound(ctx *core.Ctx, t *qt.Node, text string) {
+func c03Compound(ctx *core.Ctx, t *qt.Node, text string, df string) {
 	var sql string
 	var err error
-	if !ctx.Call("ToPostgres", func() { sql, err = lucene.ToPostgres(text) }) {
+	if !ctx.Call("ToPostgres", func() {
+		if df != "" {
+			sql, err = lucene.ToPostgres(text, lucene.WithDefaultField(df))
+		} else {
+			sql, err = lucene.ToPostgres(text)
+		}
+	}) {
 		return
+	}
+	if df != "" {
+		ctx.Count("compounds_with_default_field", 1)
 	}
 	ctx.Count("compounds", 1)
 	ctx.Count(fmt.Sprintf("compounds_depth_%d", minInt(t.Depth(), 6)), 1)
 	allClean := true
-	want := expectedIR(ctx, t, &allClean)
+	want := expectedIR(ctx, t, &allClean, df)
 	if err != nil {
 		if want == nil {
 			ctx.Count("compounds_with_unrenderable_leaf", 1)
@@ -642,11 +708,12 @@ func c03Compound(ctx *core.Ctx, t *qt.Node, text string) {
 		ctx.Count("compounds_with_known_bad_leaf", 1)
 		return
 	}
-	fields := oracle.CollectFields(t)
+	meaning := scopeBare(t, df)
+	fields := oracle.CollectFields(meaning)
 	rows := oracle.ProbeRows(fields, ctx.Rand("rows"+text), 256)
 	sat, unsat := 0, 0
 	for i, row := range rows {
-		w, lerr := oracle.LucEval(t, row)
+		w, lerr := oracle.LucEval(meaning, row)
 		if lerr != nil {
 			continue
 		}
